@@ -1510,27 +1510,30 @@ func scanColumn(p []byte, col ColumnInfo, dest []interface{}) (int, error) {
 		return 0, fmt.Errorf("gocql: not enough columns to scan into: no destination left for column %q", col.Name)
 	}
 
-	if dest[0] == nil {
-		return 1, nil
-	}
-
 	if col.TypeInfo.Type() == TypeTuple {
 		// this will panic, actually a bug, please report
 		tuple := col.TypeInfo.(TupleTypeInfo)
 
 		count := len(tuple.Elems)
+		if count > len(dest) {
+			return 0, fmt.Errorf("gocql: not enough columns to scan into: have %d want %d for tuple column %q", len(dest), count, col.Name)
+		}
 		// here we pass in a slice of the struct which has the number number of
-		// values as elements in the tuple
+		// values as elements in the tuple, a nil destination skips its element
 		if err := Unmarshal(col.TypeInfo, p, dest[:count]); err != nil {
 			return 0, err
 		}
 		return count, nil
-	} else {
-		if err := Unmarshal(col.TypeInfo, p, dest[0]); err != nil {
-			return 0, err
-		}
+	}
+
+	if dest[0] == nil {
 		return 1, nil
 	}
+
+	if err := Unmarshal(col.TypeInfo, p, dest[0]); err != nil {
+		return 0, err
+	}
+	return 1, nil
 }
 
 func (is *iterScanner) Scan(dest ...interface{}) error {
